@@ -413,6 +413,11 @@ pub fn apply(ty: Ty, doc: &str, rw: &Rw) -> Option<String> {
             if rw.arg % 3 != 0 || has_decl {
                 s.push_str("\n<!-- end -->\n");
             }
+            // a document type declaration (without entity definitions) is part of the prolog too
+            if rw.arg % 4 == 3 && !toks.iter().any(|l| matches!(l.tok, Tok::DocType(_))) && !has_decl {
+                let at = if s.starts_with("<?xml") { s.find("?>").map(|p| p + 2).unwrap_or(0) } else { 0 };
+                s.insert_str(at, "\n<!DOCTYPE r [<!ELEMENT r ANY>]>\n");
+            }
             Some(s)
         }
         11 => {
